@@ -147,8 +147,8 @@ fault("c01-override-forme", "C01", "R01c", (FILE, "class FileHandler(BaseHandler
 fault("c01-relaxed-with-fs", "C01", "R01e", (URL, '            self.entry.type = "h"\n', '            self.entry.type = "h"\n            self.entry.populatefromfs(self.selector, None, vfs=self.vfs)\n'))
 fault("c01-new-relaxed-handler", "C01", "R01", (FILE, "class FileHandler(BaseHandler):\n", "class FileHandler(BaseHandler):\n    def isrequestsecure(self):\n        return True\n\n"))
 fault("c01-init-opens", "C01", "R01d", (VIRT, "                self.statresult = self.vfs.stat(self.selectorreal)\n", "                self.statresult = self.vfs.stat(self.selectorreal)\n                self.vfs.listdir(self.selectorreal)\n"))
-twin("c01-twin-init-helper", "C01", (VIRT, "            try:\n                self.statresult = self.vfs.stat(self.selectorreal)\n            except OSError:\n                pass\n", "            self._restat()\n"),
-     (VIRT, "    def genargsselector", "    def _restat(self):\n        try:\n            self.statresult = self.vfs.stat(self.selectorreal)\n        except OSError:\n            pass\n\n    def genargsselector"))
+twin("c01-twin-init-helper", "C01", (VIRT, "            try:\n                self.statresult = self.vfs.stat(self.selectorreal)\n            except (OSError, ValueError):\n                pass\n", "            self._restat()\n"),
+     (VIRT, "    def genargsselector", "    def _restat(self):\n        try:\n            self.statresult = self.vfs.stat(self.selectorreal)\n        except (OSError, ValueError):\n            pass\n\n    def genargsselector"))
 fault("c01-raw-open-in-handler", "C01", "R01f", (FILE, "        self.vfs.copyto(self.getselector(), wfile)\n", '        with open(self.config.get("pygopherd", "root") + self.searchrequest, "rb") as fp:\n            wfile.write(fp.read())\n'))
 fault("c01-getfspath-join", "C01", "R01f", (BASE, "        fspath = self.getrootpath() + selector\n", "        fspath = os.path.join(self.getrootpath(), selector)\n"))
 fault("c01-getfspath-unquote", "C01", "R01", (BASE, "        fspath = self.getrootpath() + selector\n", "        import urllib.parse\n        fspath = self.getrootpath() + urllib.parse.unquote(selector)\n"))
@@ -207,7 +207,7 @@ twin("c02-twin-parity-nested", "C02", (HTTP, "        if self.secure != self.che
 fault("c02-d1-unfixed", "C02", "R02c", (GP, 'self.gopherpstring.startswith("+")', 'self.gopherpstring[0] == "+"'))
 fault("c02-gopherp-guard-off", "C02", "R02c", (GP, "        if len(self.requestlist) < 2:\n            return False\n        if len(self.requestlist) == 2:", "        if len(self.requestlist) <= 2:"))
 fault("c02-http-len-guard", "C02", "R02c", (HTTP, "            len(self.requestparts) == 3\n            and (self", "            len(self.requestparts) >= 2\n            and (self"))
-fault("c02-spartan-index", "C02", "R02c", (SPAR, "return len(parts) == 3 and all(parts) and parts[2].isdigit()", "return parts[2].isdigit() and len(parts) == 3 and all(parts)"))
+fault("c02-spartan-index", "C02", "R02c", (SPAR, "            len(parts) == 3\n            and all(parts)\n            and parts[2].isdigit()", "            parts[2].isdigit()\n            and len(parts) == 3\n            and all(parts)"))
 fault("c02-catchall-first", "C02", "R02d", (CONF, "protocols = [wap.WAPProtocol, gemini.GeminiProtocol,", "protocols = [rfc1436.GopherProtocol, wap.WAPProtocol, gemini.GeminiProtocol,"))
 fault("c02-no-secure-catchall", "C02", "R02d", (CONF, "             rfc1436.GopherProtocol, rfc1436.SecureGopherProtocol]", "             rfc1436.GopherProtocol]"))
 twin("c02-twin-reorder-noncatchall", "C02", (CONF, "protocols = [wap.WAPProtocol, gemini.GeminiProtocol,", "protocols = [gemini.GeminiProtocol, wap.WAPProtocol,"))
@@ -226,7 +226,7 @@ twin("c02-twin-early-return", "C02", (SERVER, '        if self.context:\n       
 # ======================================================================= C03
 for name, rel in (("base", PBASE), ("gopherp", GP), ("http", HTTP)):
     fault(f"c03-no-fnf-handler-{name}", "C03", "R03a", (rel, "        except GopherExceptions.FileNotFound as e:\n            self.filenotfound(str(e))\n", ""))
-fault("c03-no-io-handler-gemini", "C03", "R03a", (GEM, "        except IOError as e:\n            GopherExceptions.log(e, self, None)\n            self.write_status(51, e.args[1])\n            return\n", ""))
+fault("c03-no-io-handler-gemini", "C03", "R03a", (GEM, "        except IOError as e:\n            GopherExceptions.log(e, self, None)\n            self.write_status(51, e.strerror or str(e))\n            return\n", ""))
 fault("c03-gemini-body-after-error", "C03", "R03a", (GEM, "            self.write_status(51, str(e))\n            return\n", "            self.write_status(51, str(e))\n"))
 fault("c03-spartan-two-status", "C03", "R03a", (SPAR, "        if handler.isdir():\n            self.write_status(2, \"text/gemini\")", "        self.write_status(2, \"text/gemini\")\n        if handler.isdir():\n            self.write_status(2, \"text/gemini\")"))
 fault("c03-gethandler-outside-try", "C03", "R03a", (PBASE, "        try:\n            handler = self.gethandler()\n            self.log(handler)\n", "        handler = self.gethandler()\n        try:\n            self.log(handler)\n"))
@@ -241,11 +241,10 @@ fault("c03-http-split-guard", "C03", "R03b", (HTTP, "        if len(splitted) >=
 fault("c03-http-formvals-guard", "C03", "R03b", (HTTP, '        if "searchrequest" in self.formvals:\n            self.searchrequest = self.formvals["searchrequest"][0]', '        self.searchrequest = self.requestparts[3]'))
 fault("c03-http-icon-guard", "C03", "R03b", (HTTP, "        if icon:\n            iconname = icon.group(1)", "        if True:\n            iconname = icon.group(1)"))
 fault("c03-mbox-none-guard", "C03", "R03b", (MBOX, "        if match is None:\n            return False\n\n", ""))
-fault("c03-mbox-int-nondigit", "C03", "R03b", (MBOX, 'pattern = "^" + self.getargflag() + r"(\\d+)$"', 'pattern = "^" + self.getargflag() + r"(\\w+)$"'))
-fault("c03-spartan-isdigit-dropped", "C03", "R03b", (SPAR, "return len(parts) == 3 and all(parts) and parts[2].isdigit()", "return len(parts) == 3 and all(parts)"))
-fault("c03-spartan-len-dropped", "C03", "R03b", (SPAR, "return len(parts) == 3 and all(parts) and parts[2].isdigit()", "return len(parts) >= 3 and all(parts) and parts[2].isdigit()"))
+fault("c03-spartan-isdigit-dropped", "C03", "R03b", (SPAR, "            and parts[2].isdigit()\n            and len(parts[2]) <= 18", ""))
+fault("c03-spartan-len-dropped", "C03", "R03b", (SPAR, "            len(parts) == 3\n            and all(parts)", "            len(parts) >= 3\n            and all(parts)"))
 fault("c03-spartan-ascii-dropped", "C03", "R03b", (SPAR, "        try:\n            self.request.encode(\"ascii\")\n        except UnicodeEncodeError:\n            return False\n", ""))
-fault("c03-slashnormalize-guard", "C03", "R03b", (PBASE, '        if len(selector) and selector[-1] == "/":', '        if selector[-1] == "/":'))
+fault("c03-slashnormalize-guard", "C03", "R03b", (PBASE, '        if len(selector) and selector[-1] == "/" and selector[-2:-1] != "/":', '        if selector[-1] == "/" and selector[-2:-1] != "/":'))
 fault("c03-urlrewriter-guard", "C03", "R03b", (URL, "            len(self.selector) >= 3\n            and self.selector[0]", "            len(self.selector) >= 2\n            and self.selector[0]"))
 fault("c03-wap-before-http", "C03", "R03b", (WAP, "        ishttp = HTTPProtocol.canhandlerequest(self)\n        if not ishttp:\n            return False\n", "        ishttp = HTTPProtocol.canhandlerequest(self)\n"))
 fault("c03-headerslurp-guard", "C03", "R03b", (HTTP, "            if len(splitline) == 2:\n", "            if len(splitline) >= 1:\n"))
@@ -335,10 +334,10 @@ fault("c12-try-outside-loop", "C12", "R12a", (DIR, "        for file in self.fil
                                              "        try:\n            for file in self.files:\n                handler = handlers.HandlerMultiplexer.getHandler(\n                    self.selectorbase + \"/\" + file,\n                    self.searchrequest,\n                    self.protocol,\n                    self.config,\n                    vfs=self.vfs,\n                )\n                fileentry = handler.getentry()\n                self.prep_entriesappend(file, handler, fileentry)\n        except (GopherExceptions.FileNotFound, OSError):\n            pass\n"))
 twin("c12-twin-pass", "C12", (DIR, "            except (GopherExceptions.FileNotFound, OSError):\n                # An unservable entry must not take down the whole listing.\n                continue\n", "            except (GopherExceptions.FileNotFound, OSError):\n                pass\n"))
 twin("c12-twin-exception", "C12", (DIR, "            except (GopherExceptions.FileNotFound, OSError):", "            except Exception:"))
-fault("c12-stat-keyerror", "C12", "R12b", (HM, "    except OSError:\n        pass\n    for handler", "    except KeyError:\n        pass\n    for handler"))
-fault("c12-stat-unguarded-virtual", "C12", "R12b", (VIRT, "            try:\n                self.statresult = self.vfs.stat(self.selectorreal)\n            except OSError:\n                pass\n", "            self.statresult = self.vfs.stat(self.selectorreal)\n"))
+fault("c12-stat-keyerror", "C12", "R12b", (HM, "    except (OSError, ValueError):", "    except KeyError:"))
+fault("c12-stat-unguarded-virtual", "C12", "R12b", (VIRT, "            try:\n                self.statresult = self.vfs.stat(self.selectorreal)\n            except (OSError, ValueError):\n                pass\n", "            self.statresult = self.vfs.stat(self.selectorreal)\n"))
 fault("c12-statresult-deref", "C12", "R12b", (FILE, "        return self.statresult and stat.S_ISREG(self.statresult[stat.ST_MODE])\n\n    def getentry(self):\n        if not self.entry:\n            self.entry = gopherentry.GopherEntry(self.selector, self.config)\n            self.entry.populatefromfs", "        return stat.S_ISREG(self.statresult[stat.ST_MODE])\n\n    def getentry(self):\n        if not self.entry:\n            self.entry = gopherentry.GopherEntry(self.selector, self.config)\n            self.entry.populatefromfs"))
-twin("c12-twin-bind-none", "C12", (HM, "    except OSError:\n        pass\n    for handler", "    except OSError:\n        statresult = None\n    for handler"))
+twin("c12-twin-bind-none", "C12", (HM, "        # refused by isrequestsecure() below, like any other missing file.\n        pass\n", "        # refused by isrequestsecure() below, like any other missing file.\n        statresult = None\n"))
 
 # ======================================================================= C20
 fault("c20-no-except-exception", "C20", "R20a", (SERVER, "        except Exception as e:\n            if GopherExceptions.tracebacks:\n                # Yes, this may be invalid.  Not much else we can do.\n                # traceback.print_exc(file = self.wfile)\n                traceback.print_exc()\n            GopherExceptions.log(e, protohandler, None)\n", ""))
@@ -549,3 +548,15 @@ twin("c05-twin-quote-helper", "C05", (HTTP, '            url = urllib.parse.quot
      (HTTP, "    def getrenderstr(self, entry, url):", "    def quoteselector(self, selector):\n        return urllib.parse.quote(selector, errors=\"surrogateescape\")\n\n    def getrenderstr(self, entry, url):"))
 fault("c06-gemini-decode-before-split", "C06", "R06c", (GEM, "            url_parts = urllib.parse.urlparse(self.request.strip())", "            url_parts = urllib.parse.urlparse(urllib.parse.unquote(self.request.strip(), errors=\"surrogateescape\"))"))
 fault("c03-memo-cache", "C03", "R03d", (DIR, "class DirHandler(BaseHandler):\n", "_memo = {}\n\n\nclass DirHandler(BaseHandler):\n"), (DIR, "        self.prep_entries()\n        return True  # Did something.", "        self.prep_entries()\n        _memo[self.selector] = self.fileentries\n        return True  # Did something."))
+
+fault("c03-d19-unfixed", "C03", "R03f", (HM, "    except (OSError, ValueError):", "    except OSError:"))
+fault("c01-d19-unfixed", "C01", "R01k", (VIRT, "            except (OSError, ValueError):", "            except OSError:"))
+fault("c03-d20-mbox-unfixed", "C03", "R03b", (MBOX, "        try:\n            message_num = int(match.groups()[0])\n        except ValueError:\n            # More digits than int() accepts (sys.int_info.str_digits_check_threshold)\n            return False", "        message_num = int(match.groups()[0])"))
+fault("c03-d20-spartan-unfixed", "C03", "R03b", (SPAR, "            and parts[2].isdigit()\n            and len(parts[2]) <= 18", "            and parts[2].isdigit()"))
+twin("c03-twin-mbox-bounded-regex", "C03", (MBOX, "        try:\n            message_num = int(match.groups()[0])\n        except ValueError:\n            # More digits than int() accepts (sys.int_info.str_digits_check_threshold)\n            return False", "        message_num = int(match.groups()[0])"),
+     (MBOX, 'pattern = "^" + self.getargflag() + r"(\\d+)$"', 'pattern = "^" + self.getargflag() + r"(\\d{1,9})$"'))
+fault("c03-d21-unfixed", "C03", "R03g", (GEM, '        meta = re.sub(r"[\\r\\n]+", " ", meta)\n', ""))
+twin("c03-twin-status-replace", "C03", (SPAR, '        meta = re.sub(r"[\\r\\n]+", " ", meta)\n', '        meta = meta.replace("\\r", " ").replace("\\n", " ")\n'))
+fault("c03-status-only-lf", "C03", "R03g", (SPAR, '        meta = re.sub(r"[\\r\\n]+", " ", meta)\n', '        meta = meta.replace("\\n", " ")\n'))
+fault("c06-d22-unfixed", "C06", "R06b", (PBASE, '        if len(selector) and selector[-1] == "/" and selector[-2:-1] != "/":', '        if len(selector) and selector[-1] == "/":'))
+twin("c06-twin-normalize-endswith", "C06", (PBASE, '        if len(selector) and selector[-1] == "/" and selector[-2:-1] != "/":', '        if selector.endswith("/") and not selector.endswith("//"):'))
